@@ -174,6 +174,11 @@ class Replay:
     def run_lens(self, module, cfg=None, workers=16, simulate=None, timeout=900, limit=None, cache=None):
         """cache: path of a file holding the lens's emitted lines (written on first use) so that
         several replays of one check run (different environments) share one TLC run."""
+        if limit is not None and not simulate:
+            # a limited run takes a PREFIX of TLC's output: with one worker the breadth-first order
+            # (hence the prefix) is the same in every run; with 16 it was not, and a clean-tree
+            # violation surfaced only now and then (DESIGN.md 0.4)
+            workers = 1
         run = tlc.TLCRun(module, cfg=cfg, workers=workers, simulate=simulate, timeout=timeout)
         if cache is not None and os.path.exists(cache + ".stats"):
             with open(cache + ".stats") as f:
